@@ -468,6 +468,19 @@ def run(ck: Check):
         for _ in range(80 if thorough else 16):
             case = G.gen_case(rng, rng.choice([3, 4, 5]), subst=rng.choice(["JC69", "HKY", "GTR", "LG"]), indices=True)
             run_case(ck, drv, torch, case, failures, "site-pattern-indices")
+        # ---- PER-SYMBOL sweep: every symbol of every alphabet (both cases, aliases, ambiguity codes, gap / unknown, characters
+        #      outside the alphabet) at the tips of a fixed tree, x {tip states, partials without / with ambiguities}, vs oracle
+        for dtn, sub, symbols, plain, extra in symbol_sweep_plan(rng):
+            size = 3 if dtn == "codon" else 1
+            for sym in symbols:
+                cols = [[sym if j == i else plain[(i + j) % 2] for j in range(4)] for i in range(4)] + [[sym, sym, plain[0], plain[1]]]
+                seqs = {nm: "".join(c[i] for c in cols) for i, nm in enumerate(["t0", "t1", "t2", "t3"])}
+                for ts, ua in ((True, None), (False, False), (False, True)):
+                    case = {"taxa": ["t2", "t0", "t3", "t1"], "seq_order": ["t0", "t1", "t2", "t3"], "seqs": seqs, "datatype": dtn,
+                            "rooting": "unrooted", "subst": sub, "site": {"kind": "constant"}, "use_tip_states": ts, "use_ambiguities": ua,
+                            "dates": None, "clock": None, "newick": "((t0:0.11,t1:0.23):0.07,(t2:0.31,t3:0.13):0.19);"}
+                    case.update(extra)
+                    run_case(ck, drv, torch, case, failures, f"symbol-sweep/{dtn}", lean=(ts is True and ua is None))
         # ---- accuracy on large trees with MIXED columns: a few well-behaved columns plus one whose site likelihood lies in
         #      the float64 denormal range without flushing to zero; reference = pruning in mpmath (unbounded range)
         plan = [("balanced", 256, False), ("balanced", 256, True)]
@@ -610,6 +623,21 @@ def run(ck: Check):
         )
 
 
+def symbol_sweep_plan(rng):
+    """(data type, substitution model, symbols, two plain symbols, extra case keys) for the per-symbol sweep"""
+    sense = G.codon_sense(0)
+    gen = {"codes": ["0", "1", "2", "x"], "ambiguities": {"K": ["0", "2"], "M": ["1", "2", "x"], "U": "1"}}
+    return [
+        ("nucleotide", {"kind": "HKY", "kappa": 2.3, "freqs": [0.1, 0.2, 0.3, 0.4]},
+         list(G.NUC18) + [c.lower() for c in G.NUC18 if c.isalpha()] + list("XxZ*0."), "AC", {}),
+        ("aa", {"kind": rng.choice(["LG", "WAG"])}, list(G.AA_ALL) + [c.lower() for c in G.AA_ALL if c.isalpha()] + list("0."), "AC", {}),
+        ("codon", {"kind": "MG94", "kappa": 2.0, "alpha": 1.1, "beta": 0.7, "freqs": [1.0 / len(sense)] * len(sense), "genetic_code": 0},
+         [sense[0], sense[17], sense[60], sense[17].lower(), "UUU", "ttu", "---", "???", "NNN", "A-G", "ACR", "acn", "Y??", "A?C"],
+         [sense[3], sense[40]], {"genetic_code": 0}),
+        ("general", {"kind": "GeneralJC69", "states": 4}, ["0", "1", "2", "x", "U", "K", "M", "?", "-", "Z"], ["0", "1"], {"general": gen}),
+    ]
+
+
 def run_case(ck, drv, torch, case, failures, bucket, lean=True, oracle=True):
     try:
         _run_case(ck, drv, torch, case, failures, bucket, lean, oracle)
@@ -633,7 +661,8 @@ def _run_case(ck, drv, torch, case, failures, bucket, lean=True, oracle=True):
             ck.mismatch("implementation raised", {"case": case, "error": repr(e)[:300]})
     seqs = case["seqs"]
     amb = any(c not in "ACGTacgt" for s in seqs.values() for c in s) if case["datatype"] == "nucleotide" else True
-    key = (case["newick"].translate({ord(c): None for c in "0123456789.:e-"}), tuple(case["taxa"]), config_key(case))
+    key = (case["newick"].translate({ord(c): None for c in "0123456789.:e-"}), tuple(case["taxa"]), config_key(case),
+           "|".join(case["seqs"][nm] for nm in case["taxa"])[:120])
     ck.case(key=key, bucket=bucket + "/" + case["subst"]["kind"], nontrivial=amb and impl is not None and math.isfinite(impl),
             sample={"newick": case["newick"], "config": config_key(case), "loglik": impl})
     ck.bucket("cfg/" + "/".join(str(x) for x in config_key(case)[1:4]))
